@@ -1,7 +1,7 @@
 (* Property C09 - theorem statements only; every proof is `exact <lemma>` into Proofs/. *)
 From Coq Require Import List Arith NArith ZArith Bool String.
 From Coq.Strings Require Import Byte.
-From Gopki.Model Require Import Bytes Base64 Pem Der Asn1 Text Algs Glue Pkcs8 Ext Rdn Time X509 Generate HashView Dir Plan Run Ops Cli Merge Validate.
+From Gopki.Model Require Import Bytes Base64 Pem Der Asn1 Text Algs Glue Pkcs8 Ext Rdn Time X509 Generate HashView Dir Plan Run Ops Cli Merge Validate Current.
 From Gopki.Spec Require Import RegenSpec DirInv MergeSpec ValidateSpec X509Spec ExtSpec AdmissionSpec PolicySpec.
 From Gopki.Proofs Require Import RunProofs ExtProofs PlanProofs WfProofs X509Proofs DerProofs Asn1Proofs TimeRangeProofs RdnProofs GenerateProofs ValidateProofs TimeProofs AlgsProofs Base64Proofs PolicyProofs MergeProofs CliProofs OpsProofs FaultProofs HistoryProofs HashViewProofs Pkcs8Proofs RecoverProofs PemTornProofs AdmissionProofs PemProofs GlueProofs.
 Import ListNotations.
@@ -19,6 +19,6 @@ Print Assumptions C09_validate_spec.
 (* a rejected entity makes planning fail, so nothing is generated *)
 Theorem C09_rejected_aborts_plan :
   forall (es : list ent) (s : strat),
-    forest es -> (exists e : ent, In e es /\ g_valid (e_cfg e) = false) -> plan true es s = None.
+    forest es -> (exists e : ent, In e es /\ g_valid (e_cfg e) = false) -> plan cur_csr es s = None.
 Proof. exact plan_invalid. Qed.
 Print Assumptions C09_rejected_aborts_plan.
